@@ -734,10 +734,19 @@ theorem arrayFrom_spec (idx : Expr) (hidx : idx.wf ctx = true) (h0 : 0 ≤ denot
     obtain ⟨h1, h2, h3⟩ := ih (k + 1) (fun x hx => hes x (List.mem_cons_of_mem _ hx)) (by omega)
     have he := hes e (List.mem_cons_self ..)
     refine ⟨?_, ?_, ?_⟩
-    · simp [mkArrayFrom, Expr.wf, hidx, he, h1, arrayFrom_isSwTail, toBinary_length]
+    · by_cases hck : (shapeOf ctx idx).contains (k : Int) <;>
+        simp [mkArrayFrom, Expr.wf, hidx, he, h1, arrayFrom_isSwTail, toBinary_length, hck]
     · simp only [mkArrayFrom, shapeOf, h2, List.map_cons, List.foldr_cons]
-    · simp only [mkArrayFrom, denote, List.any_cons, List.any_nil, Bool.or_false]
-      rw [matchesSpec_toBinary k _ (by omega), Int.emod_eq_of_lt h0 hlt, h3]
+    · simp only [mkArrayFrom, denote]
+      have hany : (if (shapeOf ctx idx).contains (k : Int) then [toBinary k (widthOf ctx idx)] else []).any
+          (fun p => p.matchesSpec (denote ctx env idx)) = decide (denote ctx env idx = (k : Int)) := by
+        by_cases hck : (shapeOf ctx idx).contains (k : Int)
+        · simp only [hck, if_true, List.any_cons, List.any_nil, Bool.or_false]
+          rw [matchesSpec_toBinary k _ (by omega), Int.emod_eq_of_lt h0 hlt]
+        · simp only [hck, if_false, List.any_nil]
+          have : denote ctx env idx ≠ (k : Int) := fun e => hck (e ▸ hr)
+          simp [this]
+      rw [hany, h3]
       by_cases hk' : denote ctx env idx = (k : Int)
       · have : (denote ctx env idx).toNat = k := by omega
         simp [hk', this]
